@@ -50,16 +50,20 @@ RouteSet(S, h) == {s \in S : Covers(s, h)}
 
 (***************************************************************************)
 (* common/sharding/shards.go:GenerateShards(base, n), n <= 32768           *)
-(*   bucket = MaxUint32 / n + 1 ;  shard i = [i*bucket, i*bucket+bucket-1] *)
-(*   and the last one is extended to MaxUint32                             *)
+(*   bucket = MaxUint32 / n + 1, rounded down instead when n-1 such        *)
+(*   buckets would exhaust the space;  shard i = [i*bucket,                *)
+(*   i*bucket+bucket-1] and the last one is extended to MaxUint32          *)
 (***************************************************************************)
+Pred(a) == IF a[2] = 0 THEN <<a[1] - 1, LimbMax>> ELSE <<a[1], a[2] - 1>>      \* a # Zero
 BucketMinus1(n) ==         \* floor((B^2 - 1) / n) by long division on limbs
     LET qh == LimbMax \div n
         r  == LimbMax % n
     IN <<qh, (r * B + LimbMax) \div n>>
 GenShards(base, n) ==
     IF n = 1 THEN <<[id |-> base, min |-> Zero, max |-> Top, del |-> FALSE]>>
-    ELSE LET q == BucketMinus1(n)
+    ELSE LET q0 == BucketMinus1(n)
+             over == Mul(n - 1, Succ(q0))[1] > LimbMax      \* n-1 rounded-up buckets leave no room
+             q == IF over THEN Pred(q0) ELSE q0             \* bucket - 1
              bucket == Succ(q)
          IN [i \in 1..n |-> LET lo == Mul(i - 1, bucket) IN
                [id |-> base + i - 1, min |-> lo, max |-> IF i = n THEN Top ELSE Add(lo, q), del |-> FALSE]]
